@@ -21547,6 +21547,229 @@ fn reconcile_pending_htlcs_with_monitor(
 	});
 }
 
+#[cfg(feature = "verif_hooks")]
+impl<
+		M: chain::Watch<SP::EcdsaSigner>,
+		T: BroadcasterInterface,
+		ES: EntropySource,
+		NS: NodeSigner,
+		SP: SignerProvider,
+		F: FeeEstimator,
+		R: Router,
+		MR: MessageRouter,
+		L: Logger,
+	> ChannelManager<M, T, ES, NS, SP, F, R, MR, L>
+{
+	/// Canonical text (one line per item, hash-map order removed) of the payment / HTLC state a
+	/// `ChannelManager` persists outside of its channels: `claimable_payments` (per HTLC: value,
+	/// sender_intended_value, total, cltv_expiry, timer_ticks, skimmed fee, previous hop),
+	/// `pending_claiming_payments`, `forward_htlcs`, `pending_intercepted_htlcs`,
+	/// `decode_update_add_htlcs`, the outbound payment states, pending events (with their completion
+	/// actions), background events, and per peer the blocked completion actions and in-flight
+	/// monitor update ids. Read-only; used to compare a manager with its written-and-reloaded copy (C12).
+	pub(crate) fn verif_persisted_state_dump(&self) -> Vec<String> {
+		fn hx(b: &[u8]) -> String {
+			let mut s = String::with_capacity(b.len() * 2);
+			for x in b {
+				s.push_str(&format!("{:02x}", x));
+			}
+			s
+		}
+		fn add_info(a: &PendingAddHTLCInfo) -> String {
+			let f = &a.forward_info;
+			format!(
+				"prev={}:{} prev_scid_alias={} prev_cp={} prev_funding={} prev_user_chan={} hash={} incoming_amt={:?} outgoing_amt={} outgoing_cltv={} skimmed={:?} accountable={} routing={}",
+				a.prev_channel_id, a.prev_htlc_id, a.prev_outbound_scid_alias, a.prev_counterparty_node_id,
+				a.prev_funding_outpoint, a.prev_user_channel_id, f.payment_hash, f.incoming_amt_msat,
+				f.outgoing_amt_msat, f.outgoing_cltv_value, f.skimmed_fee_msat, f.incoming_accountable,
+				hx(&f.routing.encode())
+			)
+		}
+		let mut out = Vec::new();
+		{
+			let cp = self.claimable_payments.lock().unwrap();
+			let mut v = Vec::new();
+			for (hash, p) in cp.claimable_payments.iter() {
+				let mut hs: Vec<String> = p
+					.htlcs
+					.iter()
+					.map(|h| {
+						let payload = match &h.onion_payload {
+							OnionPayload::Invoice { _legacy_hop_data } => {
+								format!("invoice(legacy_hop_data={:?})", _legacy_hop_data)
+							},
+							OnionPayload::Spontaneous(pre) => format!("spontaneous({})", pre),
+						};
+						format!(
+							"{{value={} sender_intended_value={} total_value_received={:?} cltv_expiry={} timer_ticks={} counterparty_skimmed_fee_msat={:?} payload={} prev_hop={:?}}}",
+							h.mpp_part.value, h.mpp_part.sender_intended_value, h.mpp_part.total_value_received,
+							h.mpp_part.cltv_expiry, h.mpp_part.timer_ticks, h.counterparty_skimmed_fee_msat,
+							payload, h.mpp_part.prev_hop
+						)
+					})
+					.collect();
+				hs.sort();
+				v.push(format!(
+					"claimable {} total_msat={} purpose={:?} onion_fields={:?} htlcs=[{}]",
+					hash, p.onion_fields.total_mpp_amount_msat, p.purpose, p.onion_fields, hs.join(" ")
+				));
+			}
+			v.sort();
+			out.extend(v);
+			let mut v: Vec<String> = cp
+				.pending_claiming_payments
+				.iter()
+				.map(|(hash, c)| format!("claiming {} {:?}", hash, c))
+				.collect();
+			v.sort();
+			out.extend(v);
+		}
+		{
+			let fwd = self.forward_htlcs.lock().unwrap();
+			let mut v = Vec::new();
+			for (scid, list) in fwd.iter() {
+				// the order inside one scid's list is the processing order: kept
+				for (k, f) in list.iter().enumerate() {
+					let t = match f {
+						HTLCForwardInfo::AddHTLC(a) => format!("add {}", add_info(a)),
+						HTLCForwardInfo::FailHTLC { htlc_id, err_packet } => format!(
+							"fail htlc_id={} data={} attribution={}",
+							htlc_id,
+							hx(&err_packet.data),
+							err_packet.attribution_data.is_some()
+						),
+						HTLCForwardInfo::FailMalformedHTLC { htlc_id, failure_code, sha256_of_onion } => {
+							format!("fail_malformed htlc_id={} code={} sha={}", htlc_id, failure_code, hx(sha256_of_onion))
+						},
+					};
+					v.push(format!("forward scid={} #{} {}", scid, k, t));
+				}
+			}
+			v.sort();
+			out.extend(v);
+		}
+		{
+			let ic = self.pending_intercepted_htlcs.lock().unwrap();
+			let mut v: Vec<String> =
+				ic.iter().map(|(id, a)| format!("intercepted {} {}", hx(&id.0), add_info(a))).collect();
+			v.sort();
+			out.extend(v);
+		}
+		{
+			let d = self.decode_update_add_htlcs.lock().unwrap();
+			let mut v = Vec::new();
+			for (scid, list) in d.iter() {
+				for (k, m) in list.iter().enumerate() {
+					v.push(format!(
+						"decode_update_add scid={} #{} chan={} htlc_id={} amt={} cltv={} hash={} skimmed={:?} msg={}",
+						scid, k, m.channel_id, m.htlc_id, m.amount_msat, m.cltv_expiry, m.payment_hash,
+						m.skimmed_fee_msat, hx(&m.encode())
+					));
+				}
+			}
+			v.sort();
+			out.extend(v);
+		}
+		{
+			let ob = self.pending_outbound_payments.pending_outbound_payments.lock().unwrap();
+			let privs = |s: &HashSet<[u8; 32]>| -> String {
+				let mut v: Vec<String> = s.iter().map(|x| hx(&x[..6])).collect();
+				v.sort();
+				v.join(",")
+			};
+			let mut v = Vec::new();
+			for (id, p) in ob.iter() {
+				let t = match p {
+					PendingOutboundPayment::Legacy { session_privs } => {
+						format!("Legacy privs=[{}]", privs(session_privs))
+					},
+					PendingOutboundPayment::Retryable {
+						retry_strategy, attempts, payment_params, session_privs, payment_hash,
+						payment_secret, payment_metadata, keysend_preimage, invoice_request,
+						bolt12_invoice, custom_tlvs, pending_amt_msat, pending_fee_msat, total_msat,
+						onion_total_msat, starting_block_height, remaining_max_total_routing_fee_msat,
+					} => format!(
+						"Retryable hash={} privs=[{}] pending_amt={} pending_fee={:?} total={} onion_total={} start_height={} remaining_fee={:?} retry={:?} attempts={} secret={:?} metadata={:?} keysend={:?} custom_tlvs={:?} params={} invreq={} bolt12={}",
+						payment_hash, privs(session_privs), pending_amt_msat, pending_fee_msat, total_msat,
+						onion_total_msat, starting_block_height, remaining_max_total_routing_fee_msat,
+						retry_strategy, attempts.count, payment_secret, payment_metadata, keysend_preimage,
+						custom_tlvs,
+						payment_params.as_ref().map(|x| hx(&x.encode())).unwrap_or_default(),
+						invoice_request.is_some(), bolt12_invoice.is_some()
+					),
+					PendingOutboundPayment::Fulfilled {
+						session_privs, payment_hash, timer_ticks_without_htlcs, total_msat, fee_paid_msat,
+					} => format!(
+						"Fulfilled hash={:?} privs=[{}] ticks_without_htlcs={} total={:?} fee_paid={:?}",
+						payment_hash, privs(session_privs), timer_ticks_without_htlcs, total_msat, fee_paid_msat
+					),
+					PendingOutboundPayment::Abandoned {
+						session_privs, payment_hash, reason, total_msat, pending_fee_msat,
+					} => format!(
+						"Abandoned hash={} privs=[{}] reason={:?} total={:?} pending_fee={:?}",
+						payment_hash, privs(session_privs), reason, total_msat, pending_fee_msat
+					),
+					PendingOutboundPayment::AwaitingOffer { .. } => "AwaitingOffer".to_string(),
+					PendingOutboundPayment::AwaitingInvoice { .. } => "AwaitingInvoice".to_string(),
+					PendingOutboundPayment::InvoiceReceived { payment_hash, .. } => {
+						format!("InvoiceReceived hash={}", payment_hash)
+					},
+					PendingOutboundPayment::StaticInvoiceReceived { payment_hash, .. } => {
+						format!("StaticInvoiceReceived hash={}", payment_hash)
+					},
+				};
+				v.push(format!("outbound {} {}", id, t));
+			}
+			v.sort();
+			out.extend(v);
+		}
+		{
+			let ev = self.pending_events.lock().unwrap();
+			for (k, (e, action)) in ev.iter().enumerate() {
+				out.push(format!("event #{} {:?} action={:?}", k, e, action));
+			}
+		}
+		{
+			let bg = self.pending_background_events.lock().unwrap();
+			let mut v: Vec<String> = bg
+				.iter()
+				.map(|b| match b {
+					BackgroundEvent::MonitorUpdateRegeneratedOnStartup {
+						counterparty_node_id, channel_id, update, ..
+					} => format!(
+						"background MonitorUpdateRegeneratedOnStartup cp={} chan={} update_id={}",
+						counterparty_node_id, channel_id, update.update_id
+					),
+					other => format!("background {:?}", other),
+				})
+				.collect();
+			v.sort();
+			out.extend(v);
+		}
+		{
+			let per_peer_state = self.per_peer_state.read().unwrap();
+			let mut v = Vec::new();
+			for (pk, peer) in per_peer_state.iter() {
+				let peer = peer.lock().unwrap();
+				for (chan_id, actions) in peer.monitor_update_blocked_actions.iter() {
+					for a in actions.iter() {
+						v.push(format!("blocked_action cp={} chan={} {:?}", pk, chan_id, a));
+					}
+				}
+				for (chan_id, (_, upds)) in peer.in_flight_monitor_updates.iter() {
+					if !upds.is_empty() {
+						let ids: Vec<u64> = upds.iter().map(|u| u.update_id).collect();
+						v.push(format!("in_flight cp={} chan={} ids={:?}", pk, chan_id, ids));
+					}
+				}
+			}
+			v.sort();
+			out.extend(v);
+		}
+		out
+	}
+}
+
 #[cfg(test)]
 mod tests {
 	use crate::events::{ClosureReason, Event, HTLCHandlingFailureType};
